@@ -17,6 +17,7 @@ FAIL = {
     'C11': ('header', 'rows', 'order', 'roundtrip', 'accept'),
     'C12': ('panic',),
     'C19': ('member', 'panic'),
+    'C13': ('history', 'handle', 'sharing', 'result', 'no-result'),
 }
 
 BDD_RULE = {
@@ -74,6 +75,9 @@ PROPS = {
     'C12': dict(suites=[cli(['robustlib', 'robustbin', 'grid'])]),
     'C19': dict(suites=[dict(suite='set', parts=[], profile='release', exhaustive=True,
                              rule='complete BFS over all 256 reachable pairs of reference states of two 2-bit sets sharing an environment x all 32 next operations (insert, contains per element; union, intersect, complement for all four operand pairs incl. the same set twice; empty; universe), each followed by all 8 membership queries twice; plus seeded random histories of <=25 operations over 1..5 bits ending in a full membership sweep; answers and both final diagrams are compared')]),
+    'C13': dict(lint='c13', suites=[dict(suite='hist', parts=[], profile='release', exhaustive=True,
+                             rule='hist: all 1884 operation sequences of length <=3 over a 12-operation alphabet acting on the two latest handles (var, not, and, or, xor, exists, model, retain, mk_choice, clean, counting) in one environment, plus seeded random histories (100 x 100 operations; thorough 2000 x 300) over all public operations incl. fp, with operands drawn from recent and from old handles; after EVERY step: the step re-run in a fresh environment gives the identical result, every earlier handle re-serialises to its recorded text, every node reachable from every handle is pointer-identical to the unique table entry for its structure, both leaves present, every key equals its value. heap: random sequences of direct mk_choice / mk_const calls on earlier results: pointer-equality pattern and table size against the Heap model'),
+                        bdd(['mixed'], exhaustive=False)]),
     'C03': dict(suites=[bdd(['conn'])]),
     'C04': dict(suites=[bdd(['quant'])]),
     'C05': dict(suites=[bdd(['count']), text(['evalc'])]),
@@ -156,3 +160,7 @@ _t('C19', 'Theorems: every operation of the (repaired) BDDSet state machine on t
           'and a query leaves the state unchanged (C19_query_pure). The same set may be both operands (the model is pure; the RefCell borrow discipline is the run-time remainder). '
           'Correspondence: complete BFS over all 256 reachable reference state pairs for 2 bits x all 32 next operations incl. self-aliasing operands, all memberships queried twice afterwards, final diagrams compared structurally; random histories up to 5 bits.',
    'Trusted: Coq kernel; extraction + ocamlopt; glue. RefCell aliasing (a run-time panic) cannot be exhibited by the pure model; it is covered by the self-aliasing transitions of the BFS. categorize (bit is 0) is modelled as negb (testbit e c).')
+
+_t('C13', 'Theorems about the unique-table ADT (cells + association table): for EVERY finite sequence of mk_choice / mk_const calls whose pointer arguments were handed out earlier, the table invariant holds (keys are the structures of their values, keys pairwise distinct, children of table nodes are table nodes, both leaves present, acyclic), every old pointer keeps its structure (C13_histories), pointer equality coincides with structural equality on handed-out pointers (C13_sharing), and mk_choice returns a pointer whose structure is mk of the operand structures (C13_refine) - so results are functions of operand structures only, which is what the tree model of C02-C07 assumes. '
+          'Partial: that every public operation is a client of this ADT is checked, not proved: a source lint (nodes touched only in size/mk_choice/mk_const/find/new; Choice allocated only in mk_choice/From) plus the dynamic sweep of suite S-hist after every step of every history (fresh-environment re-run identical, all old handles unchanged, Rc::ptr_eq of every reachable node with its table entry).',
+   'Trusted: Coq kernel; extraction + ocamlopt; glue. The Heap model abstracts FxHashMap<BDD, Rc<BDD>> as an association list keyed by structure and Rc pointers as addresses; hashing itself (derive(Hash), FxHasher) is not modelled. Operations-are-ADT-clients is established by lint and run-time check only.')
